@@ -19,7 +19,10 @@ RULE = ("arrays with hostile names (space, newline, colon, backslash, quotes, gl
 
 LOOKALIKES = [b"x\nblock:0:1:used::bad:", b"file:d1:forged:1:2:3:4", b"y\ndup:d1:a:d2:b:1: dup", b"z\nsummary:exit:ok",
               b"a:b", b"c\\d", b"e\\nf", b"g\rh", b"i j", b" lead", b"trail ", b"k\tl", b"m'n", b'o"p', b"q*r", b"s?t", b"u[v]",
-              b"\xff\xfe", b"w\xc3\xa9", b"link_symlink:d1:x:y", b"n\nzerosubsecond:d1:forged: ", b"=", b"a = b", b"-> x", b"a -> b"]
+              b"\xff\xfe", b"w\xc3\xa9",
+              # bytes that equal an escaped character in their low 7 bits (0x0A 0x0D ':' '\\' with the top bit set), next to their
+              # ASCII twins: they must come out verbatim and never collide
+              b"a\xbab", b"x\x8ay", b"x\x8dy", b"x\xdcy", b"caf\xc3\xba", b"x\ny", b"x\\y", b"link_symlink:d1:x:y", b"n\nzerosubsecond:d1:forged: ", b"=", b"a = b", b"-> x", b"a -> b"]
 
 
 def _unmatched(res):
